@@ -263,7 +263,7 @@ class Interp:
         self.flags.add('deleted')
 
     def op_pref(self, op):
-        _, slot, j, what = op
+        slot, j, what = op[1], op[2], op[3]
         s = self.slots.get(slot)
         if not self.usable(s):
             return 'skip'
@@ -277,6 +277,10 @@ class Interp:
                       lambda: self.w2.get_processor(self.P[j]))
         elif what == 'set':
             a, b = self.pair(self.P[j])
+            k = op[4] if len(op) > 4 else None
+            if k is not None:           # instance-level priority
+                a.priority = b.priority = k
+                self.probes['instance_priority'] += 1
             self.both(f'processor ref set P{j}',
                       lambda: setattr(s['ctl'], name, a),
                       lambda: self.w2.add_processor(b))
@@ -455,10 +459,13 @@ class Interp:
     def view(self, w):
         out = {}
         for i, K in enumerate(self.K):
-            out[f'get{i}'] = sorted((repr(e), self.lab(c))
-                                    for e, c in w.get(K))
+            lst = w.get(K)
+            out[f'get{i}'] = sorted((repr(e), self.lab(c)) for e, c in lst)
+            if isinstance(lst, list):
+                lst.clear()             # the caller owns the returned list
         out['entities'] = sorted(map(repr, w.entities))
         out['procs'] = [self.lab(p) for p in w.processors]
+        out['prios'] = [p.priority for p in w.processors]
         for slot, s in self.slots.items():
             e = s['eid']
             out[f'comps{slot}'] = sorted(self.lab(c)
@@ -582,8 +589,11 @@ def generate(prop, run_seed, tier='quick', tolerate=frozenset()):
         elif kind == 'delete':
             ops.append(['delete', slot, rng.choice(forms[:2])])
         elif kind == 'pref':
-            ops.append(['pref', slot, rng.randrange(npc),
-                        rng.choice(['get', 'set', 'del', 'get'])])
+            what = rng.choice(['get', 'set', 'del', 'get', 'set'])
+            op = ['pref', slot, rng.randrange(npc), what]
+            if what == 'set' and rng.random() < .4:
+                op.append(rng.choice([-2, -1, 0, 1, 3, 7]))
+            ops.append(op)
         elif kind == 'process':
             ops.append(['process', rng.choice(DTS)])
         elif kind == 'toggle':
@@ -646,4 +656,4 @@ PROBES = {'C19': ['form.function', 'form.method', 'form.descriptor_get',
                   'proto.prefix_method', 'proto.default_ctor',
                   'proto.custom_prefix', 'proto.override',
                   'proto_iterated_twice', 'same_name_types',
-                  'on_update_checked']}
+                  'on_update_checked', 'instance_priority']}
